@@ -119,7 +119,7 @@ def jobs(tier):
                     stubs.append((r'^bool vf::R<\d+>::match<', rule_stub_state(a, m, action=act)))
                     stubs.append((r'vf::%s::%s[<(]' % (st, st), ctor_stub(st == 'VS')))
                     stubs.append((r'vf::%s::~%s\(' % (st, st), dtor_stub()))
-                    stubs.append((r'vf::%s::success<' % st, success_stub()))
+                    stubs.append((r'vf::%s::success<' % st, success_stub(), 'opt'))     # not called at all when actions are disabled (change_state)
                     want_succ = 'g_ok[0]' if mode is None else ('(g_ok[0] && %d)' % a)
                     con.add(E('g_nctor == 1 && g_ndtor == 1 && g_s == S_DEAD', 'STATE-LIVES-EXACTLY-FOR-THE-ATTEMPT', P))
                     con.add(E('!vf_exc.pending ==> g_nsucc == (%s ? 1 : 0)' % want_succ, 'STATE-SUCCESS-ONCE-IFF-MATCHED', P))
